@@ -1145,6 +1145,9 @@ func runC19(c *Ctx) {
 					case "removeUnused":
 						treqs = append(treqs, []string{"C19.thm", enc, "-", "-", a[6], a[7]})
 						tidx = append(tidx, i)
+					case "removeOutput":
+						treqs = append(treqs, []string{"C19.thmout", enc, pl.Edit.Callable, pl.Edit.Param})
+						tidx = append(tidx, i)
 					}
 				}
 				for k, rep := range c.Drv.AskBatch(treqs) {
@@ -1160,6 +1163,11 @@ func runC19(c *Ctx) {
 						r.hist("theorem-instance:rename wf=" + f["wf"] + " fresh=" + f["fresh"])
 						if f["wf"] == "true" && f["fresh"] == "true" && (f["rt"] != "true" || f["cg"] != "true") {
 							bad = "rename_rename_id / rename_callgraph_partial"
+						}
+					} else if pl.Edit.Op == "removeOutput" {
+						r.hist("theorem-instance:removeOutput unreferenced=" + f["unref"])
+						if f["unref"] == "true" && f["same"] != "true" {
+							bad = "remove_output_unused"
 						}
 					} else {
 						r.hist("theorem-instance:removeLoop")
